@@ -84,12 +84,14 @@ class Scn:
         self.at_cred_id = None            # credential id inside an attested-credential-data block of an ASSERTION (None = the credential's own)
         self.user_handle = None
         self.faults = []
+        self.cd_prefix, self.cd_suffix = b"", b""      # bytes around the client data JSON that ARE part of what the authenticator hashed (BOM, whitespace)
 
     def build(self):
         cred = authsim.Cred(self.kind)
         signer = authsim.Cred(self.signer_kind, slot=self.signer_slot) if self.signer_kind else cred
         cdj = authsim.client_data(self.cd_type, self.sign_challenge if self.sign_challenge is not None else self.challenge,
                                   self.origin, extra=self.cd_extra, token_binding=self.token_binding)
+        cdj = self.cd_prefix + cdj + self.cd_suffix
         ad = authsim.authdata(self.sign_rp_id or self.rp_id, self.flags, self.count, aaguid=bytes(16), cred_id=self.at_cred_id if self.at_cred_id is not None else self.cred_id,
                               cose_bytes=cred.cose_bytes, ext=self.ext)
         if self.sign_over == "ad-only":
@@ -178,6 +180,18 @@ def f_origin_pattern(s, r):
     exp, got = r.choice(ORIGIN_PATTERNS)
     s.exp_origin = exp if r.random() < 0.6 else [exp, "https://other.example"]
     s.origin = got
+def f_cd_unsigned_affix(s, r):
+    # bytes put around the client data AFTER it was hashed and signed (transport noise, a re-serialising proxy): the hash no longer matches, or it is no JSON
+    from harness import srcdict
+    BOM = b"\xef\xbb\xbf"
+    pre, own = r.choice([(BOM, b""), (BOM + BOM, b""), (BOM + b"\xbb", b""), (BOM + b"\xbf\xbb", b""), (b" ", b""), (b"\n", b""), (b"\xbb\xbf", BOM), (BOM, BOM), (b"\xbf", BOM), (b"\xfe\xff", b""), (b"\x00", b"")]
+                        + [(p, b"") for p in srcdict.byte_prefixes()] + [(b"", b"")])
+    suf = b"" if pre else r.choice([b" ", b"\n", b"\x00"])
+    s.cd_prefix = own
+    def post(a, pre=pre, suf=suf, own=own):
+        # presented = own prefix kept, then the extra bytes spliced in right after it (so that a "strip the marks" reading swallows them)
+        a.cdj = own + pre + a.cdj[len(own):] + suf
+    s.post = post
 def f_origin_substring(s, r):
     # client origin is a proper substring / superstring of the expected one
     s.exp_origin = "https://example.com:8443"
@@ -263,7 +277,7 @@ FAULTS = {
     "id-not-b64-rawid:padded-1": id_fault("padded-1"), "id-not-b64-rawid:padded-2": id_fault("padded-2"), "id-not-b64-rawid:last-char-spare-bits": id_fault("last-char-spare-bits"),
     "id-not-b64-rawid:newline-appended": id_fault("newline-appended"), "id-not-b64-rawid:dot-inserted": id_fault("dot-inserted"), "id-not-b64-rawid:standard-alphabet": id_fault("standard-alphabet"),
     "id-not-b64-rawid:char-appended": id_fault("char-appended"), "id-not-b64-rawid:truncated": id_fault("truncated"), "id-not-b64-rawid:empty": id_fault("empty"),
-    "credential-type": f_cred_type, "challenge-base64url-alias": f_challenge_b64_alias, "origin-alias-spelling": f_origin_alias, "origin-expected-read-as-pattern": f_origin_pattern, "declared-algorithm-of-another-family": f_declared_alg_foreign,
+    "credential-type": f_cred_type, "challenge-base64url-alias": f_challenge_b64_alias, "origin-alias-spelling": f_origin_alias, "client-data-affix-not-signed": f_cd_unsigned_affix, "origin-expected-read-as-pattern": f_origin_pattern, "declared-algorithm-of-another-family": f_declared_alg_foreign,
 }
 # faults that can only be expressed in some input forms
 RECORD_ONLY = {"credential-type"}
@@ -317,6 +331,9 @@ def base_variation(s, rng):
         s.cd_extra = {"crossOrigin": rng.choice([True, False]), "other_keys_can_be_added_here": "do not compare clientDataJSON against a template"}
     if rng.random() < 0.3:
         s.user_handle = rng.randbytes(rng.choice([1, 16, 64]))
+    if rng.random() < 0.2:
+        # the client data is whatever bytes the client serialised and the authenticator hashed: a byte order mark or white space around the JSON text is part of it
+        s.cd_prefix, s.cd_suffix = rng.choice([(b"\xef\xbb\xbf", b""), (b" ", b"\n"), (b"\n\t ", b" "), (b"\xef\xbb\xbf", b"\r\n")])
     return s
 
 
